@@ -464,6 +464,53 @@ func one(v variant) {
 	}
 }
 
+// closeStress: many cheap executions aimed at the instant Close returns — an
+// idle tunnel, two closers, the strict Inbound probe right after each return.
+func closeStress(n int, seed int64) {
+	runtime.GOMAXPROCS(16)
+	for i := 0; i < n && !r.Enough(); i++ {
+		s := memsock.New("udp")
+		gateway.NewGateway(s, nil)
+		c, err := tun.Start(s, cfg())
+		if err != nil {
+			continue
+		}
+		if i%3 == 0 {
+			go c.Send(0, 1)
+		}
+		var wg sync.WaitGroup
+		var open int32
+		for k := 0; k < 2; k++ {
+			wg.Add(1)
+			go func() {
+				defer wg.Done()
+				c.T.Close()
+				for {
+					select {
+					case _, ok := <-c.T.Inbound():
+						if !ok {
+							return
+						}
+					default:
+						atomic.AddInt32(&open, 1)
+						return
+					}
+				}
+			}()
+		}
+		wg.Wait()
+		nStress++
+		if open > 0 {
+			r.Violate("close.inbound-open", map[string]string{"scenario": "close-stress"}, map[string]interface{}{"variant": fmt.Sprintf("close-stress #%d", i)},
+				"[close-stress #%d] a Close call returned but Inbound was not closed (a range loop over it does not end)", i)
+		}
+	}
+	r.Eval(1)
+	r.DistinctStr(fmt.Sprintf("close-stress n=%d", n))
+}
+
+var nStress int64
+
 func firstLibFrame(stack string) string {
 	for _, l := range strings.Split(stack, "\n") {
 		if strings.Contains(l, "vapourismo/knx-go/knx.") {
@@ -516,6 +563,8 @@ func run(rr *mon.Run) {
 			}
 		}
 	}
+	closeStress(r.Pick(4000, 60000), seed)
+	r.Observe("close_stress_executions", nStress)
 	r.Observe("executions", nExec)
 	r.Observe("close_returned_before_inbound_was_closed", nNotClosedAtReturn)
 	r.Observe("closed_while_active_and_usable", nClosedActive)
